@@ -166,6 +166,8 @@ where
     program: Program,
     row: LineRow,
     instructions: LineInstructions<R>,
+    // True if a row has been returned for the current sequence.
+    sequence_has_rows: bool,
 }
 
 type OneShotLineRows<R, Offset = <R as Reader>::Offset> =
@@ -189,6 +191,7 @@ where
             program,
             row,
             instructions,
+            sequence_has_rows: false,
         }
     }
 
@@ -202,6 +205,7 @@ where
             program,
             row,
             instructions,
+            sequence_has_rows: false,
         }
     }
 
@@ -234,11 +238,19 @@ where
                 Ok(Some(instruction)) => {
                     if self.row.execute(instruction, &mut self.program)? {
                         if self.row.tombstone {
+                            if self.row.end_sequence && self.sequence_has_rows {
+                                // The sequence became a tombstone after some of its rows
+                                // were already returned. Still return the end of the
+                                // sequence, so that later rows aren't seen as part of it.
+                                self.sequence_has_rows = false;
+                                return Ok(Some((self.header(), &self.row)));
+                            }
                             // Perform any reset that was required for the tombstone row.
                             // Normally this is done when `next_row` is called again, but for
                             // tombstones we loop immediately.
                             self.row.reset(self.program.header());
                         } else {
+                            self.sequence_has_rows = !self.row.end_sequence;
                             return Ok(Some((self.header(), &self.row)));
                         }
                     }
